@@ -205,18 +205,87 @@ func TestC03Mutate(t *testing.T) {
 
 var grammar *g4.Grammar
 
+// g4Frames: the derivation of a sub-rule is embedded in a frame that binds n, r and m, and the identifiers the
+// derivation uses in variable position are mapped onto those three names (grammar derivations pick names at
+// random, so that nearly every reference would be unresolvable and the translator would reject the text).
+func g4Text(t *rapid.T) string {
+	depth := rapid.IntRange(12, 40).Draw(t, "depth")
+	var text string
+	switch rapid.IntRange(0, 9).Draw(t, "frame") {
+	case 0, 1, 2:
+		text = "match (n)-[r]->(m) where " + grammar.Generate(t, "oC_Expression", depth).Text + " return n, r, m"
+	case 3:
+		text = "match (n)-[r]->(m) return " + grammar.Generate(t, "oC_Expression", depth).Text
+	case 4, 5:
+		text = "match " + grammar.Generate(t, "oC_Pattern", depth).Text + " return 1"
+	case 6:
+		text = "match (n)-[r]->(m) return" + grammar.Generate(t, "oC_ProjectionBody", depth).Text
+	case 7:
+		text = "match (n)-[r]->(m) with" + grammar.Generate(t, "oC_ProjectionBody", depth).Text + " return 1"
+	case 8:
+		text = grammar.Generate(t, "oC_SingleQuery", depth).Text
+	default:
+		text = grammar.Generate(t, "oC_Cypher", depth).Text
+	}
+	return bindIdentifiers(text)
+}
+
+var g4Keywords map[string]string
+
+// bindIdentifiers rewrites symbolic names in variable position to n / r / m.
+func bindIdentifiers(text string) string {
+	toks, lexErrs := corpus.Lex(text)
+	if lexErrs > 0 {
+		return text
+	}
+	var ns []int
+	for i, tk := range toks {
+		if tk.Name != "SP" {
+			ns = append(ns, i)
+		}
+	}
+	names := []string{"n", "r", "m"}
+	seen := map[string]string{}
+	for k, i := range ns {
+		tk := toks[i]
+		if tk.Name != "UnescapedSymbolicName" {
+			continue
+		}
+		prev, next := "", ""
+		if k > 0 {
+			prev = toks[ns[k-1]].Text
+		}
+		if k+1 < len(ns) {
+			next = toks[ns[k+1]].Text
+		}
+		// property keys, labels / types, map keys, function names, namespaces, aliases stay as they are
+		if prev == "." || prev == ":" || prev == "|" || next == "(" || next == ":" || next == "." && false || strings.EqualFold(prev, "as") {
+			continue
+		}
+		if _, isVar := seen[tk.Text]; !isVar {
+			seen[tk.Text] = names[len(seen)%len(names)]
+		}
+		toks[i].Text = seen[tk.Text]
+	}
+	return corpus.Join(toks)
+}
+
 func genCaseG4(t *rapid.T) Case {
 	if grammar == nil {
 		g, err := g4.Load()
 		if err != nil {
 			panic(err)
 		}
-		g.UseDefaultWeights(0.1)
+		g.UseDefaultWeights(0.05)
+		// shapes the translator refuses outright: keep them rare so that more derivations reach the oracle
+		for _, r := range []string{"oC_Merge", "oC_MapLiteral", "oC_Parameter"} {
+			g.Weight[r] = 0.2
+		}
 		grammar = g
 	}
-	text := grammar.Query(t).Text
-	for tries := 0; tries < 4 && !accepted(text); tries++ {
-		text = grammar.Query(t).Text
+	text := g4Text(t)
+	for tries := 0; tries < 3 && !accepted(text); tries++ {
+		text = g4Text(t)
 	}
 	return withParamValues(Case{Src: "g4", Query: text}, rapid.IntRange(0, 5).Draw(t, "pshift"))
 }
